@@ -136,6 +136,9 @@ impl World {
                 self.inbox.extend(r.sent.into_iter().filter(|(_, s)| !matches!(s, Sent::GetBlockFilters(_))));
             }
             Op::Download => {
+                // the peer first answers what it was asked before, then the periodic ticks re-request what is still open
+                let first = std::mem::take(&mut self.inbox);
+                self.service_downloads(first);
                 let net = self.net.as_mut().unwrap();
                 let r1 = net.fp_tick(GET_BLOCK_FILTERS_TOKEN);
                 let r2 = net.lc_tick(GET_IDLE_BLOCKS_TOKEN);
